@@ -90,7 +90,7 @@ def merge_rules(R, pfx="C07"):
         prep(tx)
         vals = agg_field_operands(tx, "libp2p_kad::record::Record", "value")
         ta = Taint(tx, through="all")
-        inp = PL(tx, 1)  # the `transactions` parameter
+        inp = PL(tx, 1, aliases=False)  # the `transactions` parameter itself (a variable initialised from it may be filtered in place)
         full = ta.closure(inp)
         # key filter: same per-element rule as C04 (filter/retain closure or gated loop), reported under C07's name
         okk, kept_key = per_element_key_check(R, F, tx, prefix=pfx + ".tx.key")
@@ -103,6 +103,7 @@ def merge_rules(R, pfx="C07"):
             vloc = op_local(vals[0][2])
             detail["input_reaches_stored_value"] = vloc in full
             for nm, stops in (("verify", kept_ver), ("key", kept_key)):
+                # (a filtered-in-place variable that is a whole alias of the parameter is the cut, not a source)
                 if not stops or vloc in ta.closure(inp, stop_at=stops):
                     ok = False
                     R.viol(pfx + ".tx.filters", "bypass:%s" % nm, "a transaction can reach the stored record without passing the %s filter" % nm, tx, vals[0][1]["l"])
